@@ -144,3 +144,187 @@ Section UninitSet.
       apply in_map_iff. exists c. split; [exact Hc|apply Hf].
   Qed.
 End UninitSet.
+
+(* ================================================================================================= *)
+(* (2) MapValidBasic::drop_none = std Filter with the predicate not_none                              *)
+(* ================================================================================================= *)
+From Tevec Require Import Model.Iter Proofs.Iter Model.IterAudit Proofs.Audit09.
+
+Lemma drop_none_elems s : f_elems (drop_none s) = filter not_none (elems s).
+Proof. unfold drop_none. cbn [f_elems]. apply flat_map_keep_valid. Qed.
+
+Lemma drop_none_wf s : wfb false s -> f_wf (drop_none s).
+Proof. intros H. exact H. Qed.
+
+(* the inner iterator after one next() of the filter *)
+Lemma find_valid_rest : forall fuel i o i', wfb false i -> length (elems i) < fuel ->
+  find_map_n keep_valid fuel i = (o, i') -> elems i' = after_first_valid (elems i).
+Proof.
+  induction fuel as [|fuel IH]; intros i o i' Hw Hl E; [lia|]. cbn [find_map_n] in E.
+  destruct (next i) as [o1 i1] eqn:E1.
+  destruct (nextd_sound false false i o1 i1 (dir_front false) Hw E1) as (Hs & Hw1 & _). unfold spec in Hs.
+  destruct o1 as [x|].
+  - rewrite Hs. cbn [after_first_valid]. unfold keep_valid in E. destruct (not_none x).
+    + injection E as _ <-. reflexivity.
+    + apply (IH i1 o i' Hw1); [|exact E]. rewrite Hs in Hl. cbn [length] in Hl. lia.
+  - injection E as _ <-. destruct Hs as [-> ->]. reflexivity.
+Qed.
+
+Lemma after_first_valid_suffix xs : exists pre, xs = pre ++ after_first_valid xs.
+Proof.
+  induction xs as [|x r [pre IH]]; [exists []; reflexivity|]. cbn [after_first_valid].
+  destruct (not_none x); [exists [x]; reflexivity|]. exists (x :: pre). cbn [app]. rewrite <- IH. reflexivity.
+Qed.
+
+Lemma after_valid_suffix k : forall xs, exists pre, xs = pre ++ after_valid k xs.
+Proof.
+  induction k as [|k IH]; intros xs; [exists []; reflexivity|]. cbn [after_valid].
+  destruct (after_first_valid_suffix xs) as [p1 H1]. destruct (IH (after_first_valid xs)) as [p2 H2].
+  exists (p1 ++ p2). rewrite <- app_assoc, <- H2. exact H1.
+Qed.
+
+Lemma filter_after_first_valid xs : filter not_none (after_first_valid xs) = tl (filter not_none xs).
+Proof.
+  induction xs as [|x r IH]; [reflexivity|]. cbn [after_first_valid filter].
+  destruct (not_none x); [reflexivity|exact IH].
+Qed.
+
+Lemma skipn_tl {A} k (l : list A) : skipn k (tl l) = skipn (S k) l.
+Proof. destruct l; [destruct k; reflexivity|reflexivity]. Qed.
+
+Lemma filter_after_valid k : forall xs, filter not_none (after_valid k xs) = skipn k (filter not_none xs).
+Proof.
+  induction k as [|k IH]; intros xs; [reflexivity|]. cbn [after_valid].
+  rewrite IH, filter_after_first_valid. apply skipn_tl.
+Qed.
+
+(* the state after k calls of next(): still a bare filter, around the source advanced behind the k-th non-null item *)
+Lemma drop_none_consume : forall k s, wfb false s ->
+  exists s', f_consume k (drop_none s) = drop_none s' /\ wfb false s'
+             /\ elems s' = after_valid k (elems s).
+Proof.
+  induction k as [|k IH]; intros s Hw; [exists s; auto|].
+  cbn [f_consume]. unfold drop_none at 1. cbn [f_next].
+  destruct (find_map_n keep_valid (S (length (elems s))) s) as [o s1] eqn:E. cbn [snd].
+  destruct (find_map_n_sound keep_valid _ s o s1 Hw (Nat.lt_succ_diag_r _) E) as [Hw1 _].
+  pose proof (find_valid_rest _ s o s1 Hw (Nat.lt_succ_diag_r _) E) as Hr.
+  destruct (IH s1 Hw1) as (s' & E' & Hw' & He'). exists s'. split; [exact E'|]. split; [exact Hw'|].
+  rewrite He', Hr. reflexivity.
+Qed.
+
+(* ---- items ---- *)
+Lemma drop_none_items s : wfb false s -> f_drain (drop_none s) = filter not_none (elems s).
+Proof. intros Hw. rewrite (f_drain_elems _ (drop_none_wf s Hw)). apply drop_none_elems. Qed.
+
+Lemma drop_none_items_consume k s : wfb false s ->
+  f_drain (f_consume k (drop_none s)) = skipn k (filter not_none (elems s)).
+Proof.
+  intros Hw. destruct (drop_none_consume k s Hw) as (s' & -> & Hw' & He).
+  rewrite (drop_none_items s' Hw'), He. apply filter_after_valid.
+Qed.
+
+(* one call: the first non-null item that is left, or None when there is none (and None ever after) *)
+Lemma drop_none_next s : wfb false s ->
+  fst (f_next (drop_none s)) = hd_error (filter not_none (elems s))
+  /\ f_drain (snd (f_next (drop_none s))) = tl (filter not_none (elems s)).
+Proof.
+  intros Hw. pose proof (drop_none_items_consume 1 s Hw) as H1. cbn [f_consume] in H1.
+  destruct (f_next (drop_none s)) as [o t'] eqn:E. cbn [fst snd] in *.
+  destruct (f_next_sound _ o t' (drop_none_wf s Hw) E) as (Hs & _ & _). unfold f_spec in Hs.
+  rewrite drop_none_elems in Hs. split.
+  - destruct o as [x|]; [rewrite Hs; reflexivity|]. destruct Hs as [-> _]. reflexivity.
+  - rewrite H1. destruct (filter not_none (elems s)); reflexivity.
+Qed.
+
+(* the filter characterisation spelled out: the yielded items are a subsequence of the source (same order), every one of
+   them non-null, and no non-null item of the source is missing *)
+Inductive subseq {A} : list A -> list A -> Prop :=
+| sub_nil : subseq [] []
+| sub_skip x l m : subseq l m -> subseq l (x :: m)
+| sub_take x l m : subseq l m -> subseq (x :: l) (x :: m).
+
+Lemma filter_subseq {A} (p : A -> bool) (l : list A) : subseq (filter p l) l.
+Proof. induction l as [|x l IH]; [constructor|]. cbn. destruct (p x); constructor; exact IH. Qed.
+
+Lemma subseq_length {A} {l m : list A} : subseq l m -> length l <= length m.
+Proof. induction 1; cbn; lia. Qed.
+
+Lemma subseq_all_le_filter {A} (p : A -> bool) (l m : list A) :
+  subseq l m -> (forall x, In x l -> p x = true) -> length l <= length (filter p m).
+Proof.
+  induction 1 as [|y l m Hs IH|y l m Hs IH]; intros Hall; [auto| |]; cbn [filter].
+  - specialize (IH Hall). destruct (p y); cbn [length]; lia.
+  - rewrite (Hall y (or_introl eq_refl)). cbn [length].
+    assert (length l <= length (filter p m)) by (apply IH; intros z Hz; apply Hall; right; exact Hz). lia.
+Qed.
+
+(* a subsequence whose items all satisfy p and that is as long as the filter IS the filter: the specification is not the
+   implementation restated *)
+Lemma subseq_filter_unique {A} (p : A -> bool) (l m : list A) :
+  subseq l m -> (forall x, In x l -> p x = true) -> length l = length (filter p m) -> l = filter p m.
+Proof.
+  induction 1 as [|x l m Hs IH|x l m Hs IH]; intros Hall Hlen; [reflexivity| |].
+  - cbn [filter] in *. destruct (p x) eqn:Ex; [|apply IH; assumption].
+    exfalso. cbn [length] in Hlen. pose proof (subseq_all_le_filter p l m Hs Hall). lia.
+  - cbn [filter] in *. rewrite (Hall x (or_introl eq_refl)) in *. f_equal. apply IH.
+    + intros z Hz. apply Hall. right. exact Hz.
+    + cbn [length] in Hlen. lia.
+Qed.
+
+Lemma drop_none_spec s : wfb false s ->
+  subseq (f_drain (drop_none s)) (elems s)
+  /\ (forall x, In x (f_drain (drop_none s)) <-> In x (elems s) /\ not_none x = true)
+  /\ length (f_drain (drop_none s)) = count_valid (elems s).
+Proof.
+  intros Hw. rewrite (drop_none_items s Hw). split; [apply filter_subseq|]. split; [|reflexivity].
+  intros x. apply filter_In.
+Qed.
+
+(* ---- the size hint at every point of the consumption ---- *)
+Lemma drop_none_hint k s : wfb false s ->
+  f_size_hint (f_consume k (drop_none s)) = (0, Some (length (after_valid k (elems s))))
+  /\ (exists pre, elems s = pre ++ after_valid k (elems s))
+  /\ length (f_drain (f_consume k (drop_none s))) <= length (after_valid k (elems s))
+  /\ (length (f_drain (f_consume k (drop_none s))) = length (after_valid k (elems s))
+      <-> forall x, In x (after_valid k (elems s)) -> not_none x = true).
+Proof.
+  intros Hw. destruct (drop_none_consume k s Hw) as (s' & E & Hw' & He). rewrite E.
+  split; [|split; [apply after_valid_suffix|]].
+  - unfold drop_none. cbn [f_size_hint]. rewrite (wfb_exact s' Hw'), He. reflexivity.
+  - rewrite (drop_none_items s' Hw'), He. set (l := after_valid k (elems s)). clearbody l.
+    split; [apply subseq_length, filter_subseq|]. split.
+    + intros Hl x Hx. induction l as [|y l IH]; [destruct Hx|]. cbn [filter length] in Hl.
+      pose proof (subseq_length (filter_subseq not_none l)) as Hb.
+      destruct (not_none y) eqn:Ey; cbn [length] in Hl; [|lia].
+      destruct Hx as [<-|Hx]; [exact Ey|]. apply IH; [lia|exact Hx].
+    + intros Hall. rewrite filter_all; [reflexivity|exact Hall].
+Qed.
+
+(* ---- idempotence (through a collection: the result is not a TrustedLen, so it has to be collected - or wrapped -
+        before drop_none can be called again) and identity on a null-free source ---- *)
+Lemma filter_idem {A} (p : A -> bool) (l : list A) : filter p (filter p l) = filter p l.
+Proof. apply filter_all. intros x Hx. apply filter_In in Hx. apply Hx. Qed.
+
+Lemma drop_none_idempotent s : wfb false s ->
+  f_drain (drop_none (IList (f_drain (drop_none s)))) = f_drain (drop_none s).
+Proof.
+  intros Hw. rewrite (drop_none_items (IList _)) by exact I. cbn [elems].
+  rewrite (drop_none_items s Hw). apply filter_idem.
+Qed.
+
+Lemma drop_none_null_free s : wfb false s -> (forall x, In x (elems s) -> not_none x = true) ->
+  f_drain (drop_none s) = elems s
+  /\ forall k, f_drain (f_consume k (drop_none s)) = skipn k (elems s)
+               /\ f_size_hint (f_consume k (drop_none s)) = (0, Some (length (skipn k (elems s)))).
+Proof.
+  intros Hw Hall. assert (Hf : filter not_none (elems s) = elems s) by (apply filter_all; exact Hall).
+  split; [rewrite (drop_none_items s Hw); exact Hf|]. intros k.
+  pose proof (drop_none_items_consume k s Hw) as Hd. rewrite Hf in Hd. split; [exact Hd|].
+  destruct (drop_none_hint k s Hw) as (Hh & [pre Hp] & _ & _). rewrite Hh. do 2 f_equal.
+  (* the source is advanced by exactly one item per call *)
+  clear -Hall. revert Hall. generalize (elems s) as l. intros l.
+  revert l. induction k as [|k IH]; intros l Hall; [reflexivity|]. cbn [after_valid].
+  destruct l as [|x l]; cbn [after_first_valid skipn].
+  - clear. induction k as [|k IH]; [reflexivity|exact IH].
+  - rewrite (Hall x (or_introl eq_refl)). apply IH. intros y Hy. apply Hall. right. exact Hy.
+Qed.
